@@ -283,6 +283,9 @@ func ExecRun(t *testing.T, prop string, st Stratum, stIdx int, tape *simrt.Tape,
 				r.S = s
 				r.W = NewWorld(s)
 				r.W.R = r
+				for k := range HookBegin {
+					delete(HookBegin, k)
+				}
 				mrand.Seed(int64(tape.Intn(1 << 30))) // jpillora/backoff jitter uses the global source
 				st.Fn(r)
 			})
